@@ -69,7 +69,7 @@ class R:
         extra = ""
         if h["kind"] == "query" and h.get("resp_explicit"):
             extra = f", resp={h['resp_explicit']}"
-        lines = [f"#[sv::msg({h['kind']}{extra})]"]
+        lines = [h.get("msg_attr_text") or f"#[sv::msg({h['kind']}{extra})]"]
         for at in h.get("sv_attrs", []):
             lines.append(f"#[sv::attr({at})]")
         for at in h.get("foreign_attrs", []):
@@ -95,8 +95,10 @@ class R:
             lines.append(f"    #[sv::msg_attr({k}, {at})]")
         for at in part.get("foreign_attrs", []):
             lines.append(f"    #[{at}]")
-        lines.append(f"    pub trait {part['trait']} {{")
-        items = ["        type Error: From<StdError>;"]
+        for at in part.get("raw_attrs", []):
+            lines.append("    " + at)
+        lines.append(f"    pub trait {part['trait']}{part.get('trait_generics', '')} {{")
+        items = [] if part.get("no_error_type") else ["        type Error: From<StdError>;"]
         if mode == "assoc":
             items.append("        type ExecC: CustomMsg;")
             items.append("        type QueryC: CustomQuery;")
@@ -105,7 +107,7 @@ class R:
             for l in self._msg_attr(h):
                 items.append("        " + l)
             ctx = f"{CTX_OF[h['kind']]}<{q_t}>"
-            params = ", ".join([f"&self", f"ctx: {ctx}"] + self._params(h))
+            params = ", ".join([h.get("self_text", "&self"), f"{h.get('ctx_attr', '')}ctx: {ctx}"] + self._params(h))
             items.append(f"        fn {h['name']}({params}) -> {self._ret(h, m_t, 'Self::Error')};")
         lines += items
         for extra in part.get("extra_items", []):
@@ -159,7 +161,8 @@ class R:
         lines = [f"pub struct {self.cid};"]
         attrs = []
         if entry_points:
-            attrs.append(f"#[{sv}::entry_points]")
+            ea = p.get("entry_points_args")
+            attrs.append(f"#[{sv}::entry_points({ea})]" if ea else f"#[{sv}::entry_points]")
         attrs.append(f"#[{sv}::contract]")
         body_attrs = []
         if p["error"] != "StdError":
@@ -173,7 +176,7 @@ class R:
             body_attrs.append(f"#[sv::custom({', '.join(parts)})]")
         if p.get("replies"):
             body_attrs.append("#[sv::features(replies)]")
-        miface = [self.messages_attr(part) for part in p["parts"][1:]]
+        miface = [self.messages_attr(part) for part in p["parts"][1:] if not part.get("skip_messages_attr")]
         o = self.order.get("messages")
         if o:
             miface = [miface[i] for i in o]
@@ -190,10 +193,16 @@ class R:
         lines += body_attrs
         for at in c.get("foreign_attrs", []):
             lines.append(f"#[{at}]")
+        for at in c.get("raw_attrs", []):
+            lines.append(at)
         lines.append(f"impl {self.cid} {{")
         for extra in c.get("extra_items_first", []):
             lines.append("    " + extra)
-        lines.append(f"    pub fn new() -> Self {{ svmon::note_new(); {self.cid} }}")
+        nm = p.get("new_mode")
+        if nm == "params":
+            lines.append(f"    pub fn new(seed: u32) -> Self {{ svmon::note_new(); {self.cid} }}")
+        elif nm != "none":
+            lines.append(f"    pub fn new() -> Self {{ svmon::note_new(); {self.cid} }}")
         for h in self._ordered(c):
             if h["kind"] == "reply":
                 lines += ["    " + l for l in self.reply_handler_src(h)]
@@ -201,7 +210,7 @@ class R:
             for l in self._msg_attr(h):
                 lines.append("    " + l)
             ctx = f"{CTX_OF[h['kind']]}<{Q}>"
-            params = ", ".join(["&self", f"ctx: {ctx}"] + self._params(h))
+            params = ", ".join([h.get("self_text", "&self"), f"{h.get('ctx_attr', '')}ctx: {ctx}"] + self._params(h))
             lines.append(f"    pub fn {h['name']}({params}) -> {self._ret(h, M, p['error'])} {{")
             lines.append(f"        {self._body(h)}")
             lines.append("    }")
@@ -257,13 +266,19 @@ class R:
         if h.get("handlers"):
             extra += ", handlers=[" + ", ".join(h["handlers"]) + "]"
         extra += f", reply_on={h['reply_on']}"
-        lines = [f"#[sv::msg(reply{extra})]"]
-        params = ["&self", f"ctx: ReplyCtx<{Q}>"]
+        lines = [h.get("msg_attr_text") or f"#[sv::msg(reply{extra})]"]
+        params = [h.get("self_text", "&self"), f"{h.get('ctx_attr', '')}ctx: ReplyCtx<{Q}>"]
         echo = []
+        if h.get("params_text") is not None:
+            # rule-breaking mutants supply the parameter list verbatim
+            lines.append(f"fn {h['name']}({', '.join(params + h['params_text'])}) -> {self._ret(h, M, p['error'])} {{")
+            lines.append("    todo!()")
+            lines.append("}")
+            return lines
         if h["reply_on"] == "success":
             dp = self.data_param(h)
             if dp:
-                params.append(f"{dp[0]} data: {dp[1]}")
+                params.append(f"{h.get('data_attr_text') or dp[0]} data: {dp[1]}")
                 echo.append(f"(\"data\", {dp[2]})")
         elif h["reply_on"] == "error":
             params.append("error: String")
@@ -272,7 +287,7 @@ class R:
             params.append("result: SubMsgResult")
             echo.append("(\"result\", svmon::serde_json::to_string(&result).unwrap())")
         if h["payload"] == "raw":
-            params.append("#[sv::payload(raw)] payload: Binary")
+            params.append(f"{h.get('payload_attr_text', '#[sv::payload(raw)]')} payload: Binary")
             echo.append("(\"payload\", j(&payload))")
         else:
             for nm, ti in zip(h["payload_names"], h["payload"]):
